@@ -35,18 +35,19 @@ type vSrvScanner struct {
 }
 
 type vHBase struct {
-	rows     []vRow
-	bounds   [][]byte // region boundaries b1<b2<..; region i = [bounds[i-1], bounds[i])
-	regs     []hrpc.RegionInfo
-	open     []*vSrvScanner // scanners currently open on the server
-	nextID   uint64
-	requests int
-	failAt   int // the request with this ordinal fails with a non-retryable error (0 = never)
-	opened   int
-	closes   int
-	badUse   string
-	maxResp  int // responses per region scanner before the server delivers everything left
-	served   int
+	rows      []vRow
+	bounds    [][]byte // region boundaries b1<b2<..; region i = [bounds[i-1], bounds[i])
+	regs      []hrpc.RegionInfo
+	open      []*vSrvScanner // scanners currently open on the server
+	nextID    uint64
+	requests  int
+	failAt    int // the request with this ordinal fails with a non-retryable error (0 = never)
+	opened    int
+	closes    int
+	badUse    string
+	maxResp   int // responses per region scanner before the server delivers everything left
+	served    int
+	earlyStop bool // the server may declare the scan finished while a region scanner is open
 }
 
 var vErrApp = errors.New("verif: application error")
@@ -198,6 +199,11 @@ func (h *vHBase) SendRPC(rpc hrpc.Call) (proto.Message, error) {
 	}
 	if h.deliverable(s, s.next) {
 		resp.MoreResultsInRegion = proto.Bool(true)
+		if h.earlyStop && verifBool() {
+			// a filter or limit ends the whole scan although the region scanner is still
+			// open: the client has to close it explicitly
+			resp.MoreResults = proto.Bool(false)
+		}
 		return resp, nil
 	}
 	// region exhausted for this scan: the server closes the region scanner
@@ -356,6 +362,7 @@ func VerifScanEndings() {
 	ctx, cancel := context.WithCancel(context.Background())
 	sc := newScanner(h, vNewScan(ctx, start, stop, reversed, false), vLogger())
 
+	h.earlyStop = true
 	ending := verifInt(0, 3)
 	at := verifInt(0, 3) // Next calls before the ending event (close / cancel), or failing request - 1
 	if ending == 1 {
